@@ -118,6 +118,11 @@ class ECDSAPrivateKey(_ECKey):
         priv = priv_key.private_numbers()
         pub = priv.public_numbers
 
+        if not public_value:
+            # The public key is optional in SEC1/PKCS#8 private keys
+            public_value = priv_key.public_key().public_bytes(
+                Encoding.X962, PublicFormat.UncompressedPoint)
+
         return cls(priv_key, curve_id, pub, public_value, priv)
 
     @classmethod
